@@ -23,6 +23,8 @@ def check(run, args):
     exe = run.build_harness()
     env = run.goenv()
     env["VERIF_SEED"] = str(run.seed)
+    from vf import load_findings
+    env["VERIF_CORPUS_ALWAYS"] = ",".join(k["key"][4:] for k in load_findings()[0] if k["prop"] == "C01" and k["key"].startswith("F12:"))
     def one(i):
         t = os.path.join(run.scratch, "corpus%d.ndjson" % i)
         s = os.path.join(run.scratch, "corpus%d.json" % i)
